@@ -204,10 +204,37 @@ func (c *Conn) loadSession(dest string, hello *clientHelloMsg) (cacheKey string,
 		return cacheKey, nil
 	}
 	// 设置客户端Hello 会话ID
+	// 会话按目的地址查找，可能由另一份（例如跳过验证的）配置创建：
+	// 重用前其记录的服务端证书必须在当前配置下通过同样的验证，否则不提供该会话，走完整握手。
+	if !c.config.InsecureSkipVerify && c.verifySessionCertificates(session.peerCertificates) != nil {
+		return cacheKey, nil
+	}
 	hello.sessionId = session.sessionId
 	cacheKey = hex.EncodeToString(session.sessionId)
 
 	return cacheKey, session
+}
+
+// verifySessionCertificates 在当前配置下验证会话中记录的服务端证书（签名证书、加密证书），
+// 验证内容与 verifyServerCertificate 相同：证书链、有效期与主机名。
+func (c *Conn) verifySessionCertificates(certs []*x509.Certificate) error {
+	if len(certs) < 2 {
+		return errors.New("tlcp: session without server certificates")
+	}
+	opts := x509.VerifyOptions{
+		Roots:         c.config.RootCAs,
+		CurrentTime:   c.config.time(),
+		DNSName:       c.config.ServerName,
+		Intermediates: x509.NewCertPool(),
+	}
+	for _, cert := range certs[2:] {
+		opts.Intermediates.AddCert(cert)
+	}
+	if _, err := certs[0].Verify(opts); err != nil {
+		return err
+	}
+	_, err := certs[1].Verify(opts)
+	return err
 }
 
 // 根据服务端消息选择客户端协议版本
